@@ -19,7 +19,8 @@ import time
 
 VERIF = os.path.dirname(os.path.dirname(os.path.abspath(__file__)))
 PY = "/venv/bin/python"
-REPO_PATHS = "/repo/compiler:/repo/lib/py"
+REPO = (os.environ.get("VERIF_REPO") or "/repo").rstrip("/")
+REPO_PATHS = REPO + "/compiler:" + REPO + "/lib/py"
 ARCH = platform.machine()
 SCRATCH = os.path.join(VERIF, "scratch")
 
@@ -30,7 +31,7 @@ class HarnessFailure(Exception):
 
 def tree_hash() -> str:
     h = hashlib.sha256()
-    for top in ("/repo/compiler/bitproto", "/repo/lib/py/bitprotolib", "/repo/lib/c"):
+    for top in (REPO + "/compiler/bitproto", REPO + "/lib/py/bitprotolib", REPO + "/lib/c"):
         for d, dirs, files in sorted(os.walk(top)):
             dirs.sort()
             for f in sorted(files):
@@ -71,6 +72,7 @@ def child_env(hashseed, extra=None) -> dict:
         "LANG": "C.UTF-8",
         "HOME": "/nonexistent",
         "TMPDIR": os.environ.get("TMPDIR", "/tmp"),
+        "VERIF_REPO": REPO,
     }
     if extra:
         env.update(extra)
